@@ -10,6 +10,8 @@ let eval ?(kill_timeout = false) (prev : state) (op : op) (r : result) (next : s
        | None -> false)
     | _ -> false in
   [ ("targets", BackendSpec.targets_ok prev op r next);
+    (* a Publish refused with ErrQueueFull has changed nothing *)
+    ("queue_full_atomic", BackendSpec.refused_ok prev op r next);
     ("live_copy", BackendSpec.live_copy_ok prev op r next);
     ((if retained_head then "cap" else "qos"), BackendSpec.qos_ok prev op r next);
     ("resub", BackendSpec.resub_ok prev op r next);
